@@ -34,7 +34,8 @@ theorem Seg.render_ne_nil (g : Seg) (h : g.wf = true) : g.render ≠ [] := by
   | drive l r => simp [Seg.render]
 
 /-- one section: a well-formed segment followed by a separator reaches `populateFieldFromBuffer` with exactly its text -/
-theorem scan_seg (g : Seg) (hg : g.wf = true) (c : Char) (hc : c = ':' ∨ c = NUL) (rest : Str) (v : Vol) :
+theorem scan_seg (g : Seg) (hg : g.wf = true) (c : Char) (hc : c = ':' ∨ c = NUL) (rest : Str) (v : Vol)
+    (hv : v.source = [] ∨ v.target = []) :
     scan (g.render ++ c :: rest) [] v =
       match populate (c = NUL) g.render v with
       | none => none
@@ -56,7 +57,7 @@ theorem scan_seg (g : Seg) (hg : g.wf = true) (c : Char) (hc : c = ':' ∨ c = N
           | cons _ _ => rfl
       · exact isWindowsDrive_of_ne _ _ (by rw [h]; exact NUL_ne_colon)
     rw [Seg.render, scan_plain s _ [] v hcl']
-    simp only [List.nil_append, scan, hnd]
+    simp only [List.nil_append, scan, hnd, Bool.false_and]
     rw [if_neg (by simp), if_pos hsep]
     cases populate (decide (c = NUL)) _ v <;> rfl
   | drive l r =>
@@ -68,26 +69,27 @@ theorem scan_seg (g : Seg) (hg : g.wf = true) (c : Char) (hc : c = ':' ∨ c = N
     have hnd : isWindowsDrive (l :: ':' :: r) c = false := by simp [isWindowsDrive]
     simp only [Seg.render, List.cons_append, scan, isWindowsDrive_of_ne [] l hl1]
     simp only [hl1, hl2, decide_false, Bool.or_self, Bool.false_eq_true, if_false, List.nil_append]
-    have hd : isWindowsDrive [l] ':' = true := by simp [isWindowsDrive, hl]
+    have hd : (isWindowsDrive [l] ':' && (decide (v.source = []) || decide (v.target = []))) = true := by
+      rcases hv with h | h <;> simp [isWindowsDrive, hl, h]
     simp only [hd, if_true]
     rw [scan_plain r _ _ v hcl']
-    simp only [List.cons_append, List.nil_append, scan, hnd]
+    simp only [List.cons_append, List.nil_append, scan, hnd, Bool.false_and]
     rw [if_neg (by simp), if_pos hsep]
     cases populate (decide (c = NUL)) _ v <;> rfl
 
-theorem scan_seg_colon (g : Seg) (hg : g.wf = true) (rest : Str) (v : Vol) :
+theorem scan_seg_colon (g : Seg) (hg : g.wf = true) (rest : Str) (v : Vol) (hv : v.source = [] ∨ v.target = []) :
     scan (g.render ++ ':' :: rest) [] v =
       match populate false g.render v with
       | none => none
       | some v' => scan rest [] v' := by
-  have := scan_seg g hg ':' (Or.inl rfl) rest v
+  have := scan_seg g hg ':' (Or.inl rfl) rest v hv
   rw [this]
   simp only [show (decide ((':' : Char) = NUL)) = false from by decide]
   try (cases populate false g.render v <;> rfl)
 
-theorem scan_seg_end (g : Seg) (hg : g.wf = true) (v : Vol) :
+theorem scan_seg_end (g : Seg) (hg : g.wf = true) (v : Vol) (hv : v.source = [] ∨ v.target = []) :
     scan (g.render ++ [NUL]) [] v = populate true g.render v := by
-  have := scan_seg g hg NUL (Or.inr rfl) [] v
+  have := scan_seg g hg NUL (Or.inr rfl) [] v hv
   rw [this]
   simp only [decide_true]
   try (cases populate true g.render v <;> rfl)
